@@ -510,6 +510,10 @@ func runBrokerScenario(o *out, tag, replay string, gen func(r *rng) (plain, hook
 			q := r.fork(uint64(7000 + i))
 			ghs = append(ghs, compose(fmt.Sprintf("gl%d", i), q, []motif{gms[10], gms[6], gms[0], gms[12], gms[13]}, 2+q.intn(2), true))
 		}
+		// three unmatched dials in flight at once in one direction (and one in the other), then a fresh pair each way
+		ghs = append(ghs, &history{name: "gfix-three-unmatched-dials", ops: []hop{
+			{0, 'd', 301, 0, "unmatched"}, {100, 'd', 302, 0, "unmatched"}, {150, 'd', 304, 0, "unmatched"}, {200, 'd', 303, 1, "unmatched"},
+			{6700, 'a', 310, 0, "fresh"}, {6800, 'd', 310, 0, "fresh"}, {6700, 'a', 311, 1, "fresh"}, {6800, 'd', 311, 1, "fresh"}}})
 		gres := make([][]opResult, len(ghs))
 		gerrs := make([]error, len(ghs))
 		parallel(len(ghs), len(ghs), func(i int) { gres[i], gerrs[i] = runGrpcHistory(ghs[i]) })
